@@ -23,12 +23,23 @@ Cases
   redundant  (a flavour of big): 1.5 - 3 MiB (thorough: up to 8 MiB) of telemetry-like records that hardly
          change from one to the next, so that gzip / zstd shrink the file by a factor > 30 and ONE <= 64 KiB
          piece of the compressed file inflates to more than 1 MiB; compression None / gzip / zstd.
+  doc    lines=False: the file holds ONE JSON document - one object written by the REAL dump_to_file (a single
+         line with its newline), or written by the harness with json.dumps (compact or indent=1, i.e. over many
+         lines; ensure_ascii or not; with or without a trailing newline) and compressed by the gzip module /
+         zstandard - of 2 bytes .. several 64 KiB read chunks ON DISK (gzip / zstd: payloads of random base64 /
+         hex / float digits so that the COMPRESSED file exceeds 64 KiB too; None/utf-8: files of exactly
+         k x 64 KiB - 1, + 0, + 1 bytes), builtin file | custom open_obj | short-read raw stream (read(-1) =
+         readall()).  load_from_file(lines=False) must deliver exactly [the object].  Taps: the chunks
+         file.read delivers, the text items entering json.load.  Coq: file.read(size=-1) = the whole file in
+         one chunk (doc_read_sizes), readall over the recorded caps, load on the text items (by key).
 Oracle (model-free): the objects read back == the objects written (type-exact, floats bit-exact), in order,
 one item per object, stream completes.  (Whether the file content is the concatenation of orjson lines after
 reference decompression is recorded in the evidence distribution, not judged.)"""
+import base64
 import contextlib
 import gzip
 import io
+import json
 import os
 import random
 
@@ -51,15 +62,26 @@ RULE = ('small: 0-6 objects (nested dicts/lists, 64-bit ints, floats incl. -0.0/
         'data - so that file.read delivers chunks of 1 byte .. 64 KiB cutting characters, escapes, compressed frames '
         'anywhere; redundant: 1.5-3 MiB (thorough up to 8 MiB) of telemetry-like records that compress by a factor '
         '> 30, compression None/gzip/zstd, so that one <= 64 KiB piece of the compressed file inflates past 1 MiB '
-        '(also through a raw stream). non-trivial = a round-trip case '
+        '(also through a raw stream); doc (lines=False): ONE document per file - written by dump_to_file (single '
+        'line + newline) or by the harness with json.dumps (compact | indent=1, ensure_ascii | not, trailing newline | '
+        'none; compressed with the gzip module / zstandard) - flavours rows (floats, hex tags) / blob (random base64) / '
+        'nested / unicode / pad, text sizes 2 bytes .. 12 x 64 KiB so that the file ON DISK spans 1 .. 7 read chunks for '
+        'every compression setting (poorly compressible payloads for gzip/zstd), pad: uncompressed utf-8 files of '
+        'exactly k x 64 KiB - 1 | + 0 | + 1 bytes; x encoding utf-8 (mostly)/utf-16/utf-32 x ignore_error x builtin '
+        'file | custom open_obj | short-read raw stream (read(-1) = readall() over caps 1..hi). non-trivial = a round-trip case '
         'with >= 2 objects whose text contains a non-ASCII character or an escaped newline, or a big case whose '
-        'file spans >= 2 read chunks or where one read chunk gave > 1 MiB of text; distinct = distinct case JSON')
+        'file spans >= 2 read chunks or where one read chunk gave > 1 MiB of text, or a doc case whose file on disk '
+        'is larger than one 64 KiB read chunk; distinct = distinct case JSON')
 TRUSTED = ['NOT modelled: orjson (premises loads(dumps o) = o, dumps o non-empty without raw newline), CPython incremental '
            'text codecs (premise: decode of any re-chunking of encode = same text; C17), zlib/zstandard (premise: '
            'decompress of any re-chunking of compress = same bytes; C16). They are hypotheses of the composition theorem, '
            'tied to the libraries by this differential test only',
            'reference decoders used by the oracle: gzip module, zstandard, orjson itself',
-           'monkey-patched taps on rxsci.framing.line.unframe and rxsci.io.file.read in the harness process',
+           'monkey-patched taps on rxsci.framing.line.unframe and rxsci.io.file.read (doc cases: also on '
+           'rxsci.container.json.load, to see the text items that enter it) in the harness process',
+           'doc cases: the documents the harness writes itself are serialised by the json module of CPython and '
+           'compressed by the gzip module / zstandard one-shot compressors; read(-1) on the raw stream of the harness is '
+           'io.RawIOBase.readall() of CPython (read(io.DEFAULT_BUFFER_SIZE) until an empty read) - modelled, not verified',
            'modelled not verified: file objects (append / sequential read; a raw stream delivers min(size, cap, bytes '
            'left) per read call, the caps being recorded by the harness stream itself), RxPY synchronous delivery, '
            'ops.skip/map/filter',
@@ -67,7 +89,7 @@ TRUSTED = ['NOT modelled: orjson (premises loads(dumps o) = o, dumps o non-empty
            'pipes / sockets / remote stores; only the READ side returns short counts - the writer given to '
            'dump_to_file is the builtin buffered file']
 ASSUMPTIONS = ['objects are JSON-representable dicts (str keys, ints in the 64-bit range, finite floats, valid Unicode)',
-               'lines=True, newline="\\n"',
+               'lines=True, newline="\\n"; lines=False only for a file that holds exactly one JSON document (skip=0)',
                'a file object returned by open_obj delivers b"" only at the end of the data (a non-blocking stream '
                'returning None or b"" early is outside the property) and its write() accepts the whole chunk',
                'zstd.py as repaired (no effect on this property: file.read delivers no '
@@ -213,6 +235,119 @@ def gen_redundant(rng, tier, comp, raw=None):
     return c
 
 
+# ---- lines=False: one document per file ------------------------------------------------------
+DOC_FLAVOURS = ['rows', 'blob', 'nested', 'unicode', 'hex']
+UNI = ['é', '€', '\U0001f600', 'a', 'b', ' ', '\n', '"', '\\', '中', '\x00', '\t', 'ü']
+
+
+def doc_serialise(obj, spec):
+    """the text of a document the HARNESS writes (writer == 'harness'): CPython json module"""
+    seps = (',', ':') if spec['compact'] and spec['indent'] is None else None
+    return json.dumps(obj, ensure_ascii=spec['ascii'], indent=spec['indent'], separators=seps) + spec['tail']
+
+
+def doc_text(obj, spec):
+    """the text expected on disk (after decompression and decoding)"""
+    if spec['writer'] == 'dump':
+        return orjson.dumps(obj).decode() + '\n'
+    return doc_serialise(obj, spec)
+
+
+def doc_obj(spec):
+    """deterministic document (a dict) for a doc case; its text is about spec['size'] bytes (flavour pad: the
+    utf-8 text is exactly spec['size'] bytes when that is feasible)"""
+    rng = random.Random(spec['seed'])
+    size, fl = spec['size'], spec['flavour']
+    if fl == 'pad':
+        base = len(doc_text({'pad': ''}, spec).encode('utf-8'))
+        return {'pad': 'x' * max(0, size - base)}
+    if fl == 'blob':       # one long random base64 string: gzip / zstd keep about 3/4 of it
+        return {'id': rng.randrange(10 ** 6), 'blob': base64.b64encode(rng.randbytes(size * 3 // 4)).decode(),
+                'é': '€ "q"\n'} if size > 40 else {}
+    doc, n = {}, 2
+    if fl == 'rows':       # the shape of a table export: random floats and hex tags compress to about 1/3
+        rows = []
+        doc = {'name': 'déjà vu ☃ "quoted"\nsecond line', 'rows': rows} if size > 0 else {}
+        n = 60
+        while n < size:
+            r = {'id': len(rows), 'x': rng.random(), 'ok': len(rows) % 2 == 0, 'none': None,
+                 'tag': '%032x' % rng.getrandbits(128)}
+            rows.append(r)
+            n += 90
+    elif fl == 'hex':      # a dict of many random hex strings (about 1/2 after compression)
+        while n < size:
+            k = rng.choice([8, 32, 200, 3000])
+            doc['k%d' % len(doc)] = '%0*x' % (k, rng.getrandbits(4 * k))
+            n += k + 10
+    elif fl == 'unicode':  # multi-byte characters, escapes, quotes, NUL
+        items = []
+        doc = {'é': items, 'n': [2 ** 63 - 1, -0.0, 5e-324, None]} if size > 0 else {}
+        n = 40
+        while n < size:
+            t = ''.join(rng.choice(UNI) for _ in range(rng.randrange(1, 80)))
+            items.append(t)
+            n += len(t.encode('utf-8')) + 4
+    else:                  # nested: the value generator of the small cases
+        while n < size:
+            v = gen_value(rng, 3)
+            doc[rng.choice(['a', 'k\n', 'é', 'q"', 'z']) + str(len(doc))] = v
+            n += len(orjson.dumps(v)) + 6
+    return doc
+
+
+def gen_doc(rng, tier, comp='?', size=None, flavour=None, writer=None, raw='?', enc=None):
+    """a lines=False case: one document per file (every choice from rng)"""
+    top = 5 * READ if tier != 'thorough' else rng.choice([5 * READ, 12 * READ])
+    writer = writer or rng.choice(['dump', 'harness'])
+    c = {'kind': 'doc', 'seed': rng.randrange(10 ** 6),
+         'size': size if size is not None else rng.choice([0, 30, 500, 5000, READ - 300, READ + 300, 2 * READ + 5,
+                                                            rng.randrange(200), rng.randrange(top), rng.randrange(top)]),
+         'flavour': flavour or rng.choice(DOC_FLAVOURS), 'writer': writer,
+         'indent': rng.choice([None, None, 1]), 'compact': rng.random() < 0.5, 'ascii': rng.random() < 0.5,
+         'tail': rng.choice(['', '\n']),
+         'comp': rng.choice([None, 'gzip', 'zstd']) if comp == '?' else comp,
+         'enc': enc or rng.choice(['utf-8'] * 8 + ['utf-16', 'utf-32']), 'skip': 0, 'lines': False,
+         'open_obj': rng.random() < 0.2, 'ignore': rng.random() < 0.3}
+    his = RAW_HI_SMALL if c['size'] < 3000 else RAW_HI_BIG
+    c['raw'] = gen_raw(rng, his, 0.25) if raw == '?' else raw
+    c['open_obj'] = c['open_obj'] or c['raw'] is not None
+    return c
+
+
+def gen_docs(rng, tier):
+    if tier == 'search':
+        return [gen_doc(rng, tier) for _ in range(8)] + \
+               [gen_doc(rng, tier, comp=comp, size=rng.randrange(3 * READ, 6 * READ), flavour='blob')
+                for comp in (None, 'gzip', 'zstd')]
+    q = tier == 'quick'
+    out = [gen_doc(rng, tier) for _ in range(60 if q else 600)]
+    # big documents: the file ON DISK spans several 64 KiB read chunks for every compression setting
+    for comp in (None, 'gzip', 'zstd'):
+        for writer in ('dump', 'harness'):
+            for fl, lo, hi in (('blob', 2 * READ, 6 * READ), ('rows', 4 * READ, 10 * READ), ('hex', 3 * READ, 8 * READ)):
+                for _ in range(1 if q else 5):
+                    out.append(gen_doc(rng, tier, comp=comp, size=rng.randrange(lo, hi), flavour=fl, writer=writer,
+                                       raw=None, enc='utf-8'))
+        # ... and through a raw stream returning short reads
+        for hi in ((20000,) if q else RAW_HI_BIG):
+            out.append(gen_doc(rng, tier, comp=comp, size=rng.randrange(3 * READ, 7 * READ),
+                               flavour=rng.choice(['blob', 'hex']), enc='utf-8',
+                               raw={'seed': rng.randrange(10 ** 6), 'hi': hi, 'full': rng.choice([0.0, 0.3])}))
+        # compressed size just around one read chunk (blob keeps about 0.76 of its text size)
+        for _ in range(2 if q else 12):
+            if comp:
+                out.append(gen_doc(rng, tier, comp=comp, size=rng.randrange(int(READ / 0.80), int(READ / 0.72)),
+                                   flavour='blob', enc='utf-8'))
+    # uncompressed utf-8 files of exactly k x 64 KiB - 1 | + 0 | + 1 bytes
+    for k in ((1, 2) if q else (1, 2, 3, 5)):
+        for d in (-1, 0, 1):
+            for writer in ('dump', 'harness'):
+                c = gen_doc(rng, tier, comp=None, size=k * READ + d, flavour='pad', writer=writer, raw=None, enc='utf-8')
+                c['indent'] = None
+                out.append(c)
+    return out
+
+
 def straddles(js):
     out = []
     for j in js:
@@ -265,6 +400,8 @@ def generate(rng, tier):
         for comp in (('gzip',) if tier == 'quick' else (None, 'gzip', 'zstd', 'gzip', 'zstd')):
             cases.append(gen_redundant(rng, tier, comp, raw={'seed': rng.randrange(10 ** 6),
                                                              'hi': rng.choice([4096, 20000, READ]), 'full': 0.3}))
+    # lines=False: one document per file (generated last, from a stream derived from rng)
+    cases += gen_docs(random.Random(rng.randrange(2 ** 62)), tier)
     return cases
 
 
